@@ -6,7 +6,7 @@
    thisRow[2048*3]).  All theorems quantify over EVERY token stream [ts] (valid or not) and every
    well-formed client state. *)
 From LV Require Import Dec.CliBase Dec.CliFbProofs Dec.CliDec Dec.CliDecZ Dec.CliMsg Dec.CliInit Dec.RefEnc
-     Dec.CliSound Dec.CliSafe Dec.CliSafeFix Dec.CliSafeZ Dec.CliOobWitness Dec.CliDesync.
+     Dec.CliSound Dec.CliSafe Dec.CliSafeFix Dec.CliSafeZ Dec.CliOobWitness Dec.CliDesync Dec.CliFuel Dec.CliSize.
 Local Open Scope Z_scope.
 
 (* ---- progress: a step that returns TRUE consumed at least one token and leaves a consistent state;
@@ -260,3 +260,62 @@ Proof.
   exists (state127 f888 255 65 1), w_zrle_cp24, 36.
   split; [split; [apply init_state_wf; lia|unfold bypp_pos; cbn; lia]|split; [reflexivity|exact w_zrle_cp24_oob]].
 Qed.
+
+(* ---- fuel adequacy (audit item 5).  The loops of the mirror are structural on a fuel counter and return normally when it
+        runs out; these theorems show that the fuel each caller supplies is sufficient: ANY larger fuel gives the same
+        result on every state and token stream, so the mirror's answer is that of the unbounded C loop (for Raw, Hextile
+        rows / columns, the UltraZip record walk, and the plain-RLE tile loops of ZRLE and TRLE, where a run paints at
+        least one pixel), palette RLE and the tile row / column loops of ZRLE and TRLE.  [rre_loop]'s fuel is the number of
+        tokens left + 1 and its exhaustion yields [More], not success; every other recursion is structural on data. *)
+Theorem C08_fuel_adequate_raw : forall k x y w h s ts, 0 <= w -> 0 <= f_bpp (c_fmt s) ->
+  let bpl := w * f_bpp (c_fmt s) / 8 in
+  let lines := if bpl =? 0 then 0 else cRFB_BUFFER_SIZE / bpl in
+  dec_raw x y w h s ts = raw_loop (Z.to_nat h + k) x y w h bpl lines (bypp_of s) s ts.
+Proof. exact dec_raw_fuel_adequate. Qed.
+
+Theorem C08_fuel_adequate_hextile : forall k x y w h bypp bg fg s ts, 0 <= w -> 0 <= h ->
+  hextile_rows (Z.to_nat (h / cHextile_tile + 1) + k) y x y w h bypp bg fg s ts
+  = hextile_rows (Z.to_nat (h / cHextile_tile + 1)) y x y w h bypp bg fg s ts /\
+  forall cy th, hextile_cols (Z.to_nat (w / cHextile_tile + 1) + k) x cy x w th bypp bg fg s ts
+                = hextile_cols (Z.to_nat (w / cHextile_tile + 1)) x cy x w th bypp bg fg s ts.
+Proof. exact hextile_fuel_adequate. Qed.
+
+Theorem C08_fuel_adequate_ultrazip : forall k rx cap bypp c s ts,
+  ultrazip_walk (Z.to_nat rx + k) rx cap bypp c s ts = ultrazip_walk (Z.to_nat rx) rx cap bypp c s ts.
+Proof. exact ultrazip_fuel_adequate. Qed.
+
+Theorem C08_fuel_adequate_zrle_plain : forall k0 cap v c c0 blen w h k s ts, bytes_ok (bc_data c) ->
+  zrle_plain (Z.to_nat (w * h) + k0) cap v c c0 blen (w * h) [] k s ts = zrle_plain (Z.to_nat (w * h)) cap v c c0 blen (w * h) [] k s ts.
+Proof. exact zrle_plain_fuel_adequate. Qed.
+
+Theorem C08_fuel_adequate_trle_plain : forall k0 cap v w h off s ts,
+  trle_plain (Z.to_nat (w * h) + k0) cap v (w * h) [] off s ts = trle_plain (Z.to_nat (w * h)) cap v (w * h) [] off s ts.
+Proof. exact trle_plain_fuel_adequate. Qed.
+
+Theorem C08_fuel_adequate_zrle_tiles : forall k cap v c rem x y w h s ts, 0 <= w -> 0 <= h ->
+  zrle_rows (Z.to_nat (h / cZRLETileHeight + 1) + k) cap v c rem 0 x y w h s ts
+  = zrle_rows (Z.to_nat (h / cZRLETileHeight + 1)) cap v c rem 0 x y w h s ts /\
+  forall j th, zrle_cols (Z.to_nat (w / cZRLETileWidth + 1) + k) cap v c rem 0 j x y w th s ts
+               = zrle_cols (Z.to_nat (w / cZRLETileWidth + 1)) cap v c rem 0 j x y w th s ts.
+Proof. exact zrle_fuel_adequate. Qed.
+
+Theorem C08_fuel_adequate_trle_tiles : forall k cap v x y w h t s ts, 0 <= w -> 0 <= h ->
+  trle_rows (Z.to_nat (h / cTRLE_tile + 1) + k) cap v y x y w h t s ts = trle_rows (Z.to_nat (h / cTRLE_tile + 1)) cap v y x y w h t s ts /\
+  forall cy th, trle_cols (Z.to_nat (w / cTRLE_tile + 1) + k) cap v x cy x w th t s ts
+                = trle_cols (Z.to_nat (w / cTRLE_tile + 1)) cap v x cy x w th t s ts.
+Proof. exact trle_fuel_adequate. Qed.
+
+Theorem C08_fuel_adequate_palrle : forall k0 cap c c0 blen w h pal k off s ts, bytes_ok (bc_data c) ->
+  zrle_palrle (Z.to_nat (w * h) + k0) cap c c0 blen (w * h) pal [] k s ts = zrle_palrle (Z.to_nat (w * h)) cap c c0 blen (w * h) pal [] k s ts /\
+  trle_palrle (Z.to_nat (w * h) + k0) cap (w * h) pal [] off s ts = trle_palrle (Z.to_nat (w * h)) cap (w * h) pal [] off s ts.
+Proof. exact palrle_fuel_adequate. Qed.
+
+(* ---- int arithmetic (audit item 4).  The C client indexes the framebuffer with [int] arithmetic, the mirror with Z; they
+        agree while width * height * bytes-per-pixel < 2^31 ([size31]).  That bound is an invariant of every message: the
+        pixel format never changes and the dimensions change only through [resize], whose MallocFrameBuffer policy (the
+        harness': 4 MiB, [harness_max_fb]) refuses larger framebuffers.  All C08 theorems are to be read for [size31] states;
+        an application that accepts framebuffers of 2^31 bytes and more is outside the mirror (and the tests). *)
+Theorem C08_size_invariant : forall s ts s' ts', handle_msg s ts = Ok tt s' ts' -> size31 s -> size31 s'.
+Proof. exact size31_invariant. Qed.
+Example C08_size_invariant_nonvacuous : size31 (init_state f888 255 1024 1024) /\ ~ size31 (init_state f888 255 32768 16384).
+Proof. split; [reflexivity|]. intros H. vm_compute in H. discriminate. Qed.
